@@ -185,7 +185,16 @@ def run(tier, seed):
                 n2, nu2, _ = compare(V, sub, seeds[:1], f"{what}/{m}", run={"output_mode": m})
                 total += n2
                 uniq += nu2
-            n2, nu2, _ = compare(V, sub, seeds[:1], f"{what}/normalize_names", ctor={"normalize_names": True}) if False else (0, 0, 0)
+        if what in ("effects", "sequences"):
+            # every other output mode gets a slice of the ALTER effects / ALTER sequences (a dialect class that re-binds its column list after
+            # the first ALTER would make later ALTERs invisible in that mode only)
+            from .. import clauses as KM
+            others = [m_ for m_ in KM.MODES if m_ not in ("sql", "bigquery", "mssql", "hql")]
+            pool_ = g.beh if thorough else rnd.sample(g.beh, min(len(g.beh), 2200))
+            for mi, m_ in enumerate(others):
+                n2, nu2, _ = compare(V, pool_[mi::len(others)], seeds[:1], f"{what}/{m_}", run={"output_mode": m_})
+                total += n2
+                uniq += nu2
 
     for what, cs, num, depth in sims:
         g = mc(cs, what, timeout=3000, simulate=num, depth=depth, seed=seed + 5)
